@@ -98,6 +98,7 @@ DEFAULT = {
     'voltype': 'VM',        # how the volumes are handed to kawin: molar volume, atomic (cell) volume or lattice parameter
     'minRadius': None,      # constraints.minRadius (None = kawin's default 3e-10)
     'Rmin': None,           # precipitateParameters[p].Rmin (None = default 3e-10)
+    'beta': 1,              # setBetaBinary(functionType): 1 = Perez et al. (default), 2 = as for multicomponent systems
     'strain': None,         # {phase name: {'eig': [e11, e22, e33], 'calc': bool}}: elastic strain energy per phase (travels with
                             # the phase name); calc=True makes the aspect ratio follow from the strain energy (needle shape)
 }
@@ -220,6 +221,8 @@ def build_model(cfg, therm=None, names=None, elements=None):
     if c['minRadius'] is not None:
         m.setConstraints(minRadius=c['minRadius'])
     m.setThermodynamics(therm)
+    if c['beta'] != 1:
+        m.setBetaBinary(c['beta'])
     if c['record']:
         m.setPSDrecording(True, 'all')
     if c['preload']:
